@@ -9,10 +9,11 @@ RULE = ("(T) get_largest_condition on synthetic result tables: 1-3 conditions x 
         "(R) corpus reactions that reach the MCS stage, run through the real Balancer with observers on every search job: the attached "
         "record must be the row's own (id), one of its own job results, with the largest total among its conditions; its molecule list "
         "must be the multiset of molecules of the carbon-richer side and every pattern must match its molecule (RDKit); the observed job "
-        "outcomes are replayed through Model/McsSelect.find inside Coq.  Non-trivial: a reaction with >= 2 conditions returning patterns; "
+        "outcomes are replayed through Model/McsSelect.find inside Coq; the same batches again (S) with 3 worker threads and finished search jobs held back so that the "
+        "completion order differs between conditions, and (F) with one condition of a row made to report 'uncertain' or to fail.  Non-trivial: a reaction with >= 2 conditions returning patterns; "
         "distinct = distinct table / reaction.")
 ASSUMPTIONS = ["containment of an MCS pattern in its molecule and what the largest common substructure is are RDKit's contract (checked with HasSubstructMatch on every reported pair)"]
-TRUSTED = ["RDKit FMCS / RascalMCES as oracles; observers (module-attribute wrappers, n_jobs=1)"]
+TRUSTED = ["RDKit FMCS / RascalMCES as oracles; observers (module-attribute wrappers; n_jobs=1, and joblib's threading backend for the schedule stream)"]
 CELLS = [(0, 0), (1, 0), (1, 1), (2, 0), (2, 1), (2, 2), (3, 1), None]
 HDR = mcs.HDR
 DEFS = """
@@ -90,7 +91,18 @@ def run(ctx):
     ins = ins[:36 if ctx.quick() else 600] + ["CC>>O", "c1ccccc1>>N", "CCO>>CCO", "CCOC(=O)C>>CC(=O)O"]
     rng.shuffle(ins)
     items = [(ins[i:i + 6], None, 0) for i in range(0, len(ins), 6)]
-    recs, _ = pipe.cached("c10_%s_%d" % (ctx.tier, ctx.seed), lambda: mcs.run_many(items))
+    # schedules: the same batches with 3 workers (threads) and finished search jobs held back so that the completion order differs
+    # from condition to condition; faults: one condition of a row reports "uncertain" / fails / times out while the others succeed
+    sched, faults = [], []
+    for inputs, _, _ in items[:4 if ctx.quick() else 40]:
+        plan = {"%d:%d" % (i, c): "hold:%s" % rng.choice(["0", "0.1", "0.25", "0.4"]) for i in range(len(inputs)) for c in range(3)}
+        sched.append((inputs, {"search": plan}, 0, 3))
+    for inputs, _, _ in items[:4 if ctx.quick() else 40]:
+        plan = {"%d:%d" % (i, rng.randrange(3)): rng.choice(["uncertain", "uncertain", "raise"]) for i in range(len(inputs)) if rng.random() < 0.7}
+        faults.append((inputs, {"search": plan}, 0))
+    recs, _ = pipe.cached("c10_%s_%d" % (ctx.tier, ctx.seed), lambda: mcs.run_many(items + sched + faults))
+    ctx.count("R", "scheduled_batches(3 workers, held jobs)", len(sched))
+    ctx.count("R", "fault_batches(uncertain/raise in one condition)", len(faults))
     cases, cmeta = [], []
     for rec in recs:
         if rec["error"] or not rec["after_find"]:
@@ -101,6 +113,8 @@ def run(ctx):
                 continue
             ctx.evaluations += 1
             case = {"inputs": rec["inputs"], "row": pos}
+            if rec.get("plan"):
+                case["plan"] = rec["plan"]; case["workers"] = rec.get("workers", 1)
             myjobs = {int(k.split(":")[1]): j for k, j in rec["jobs"].items() if int(k.split(":")[0]) == pos}
             if sum(1 for j in myjobs.values() if j["mcs_results"]) >= 2:
                 ctx.nontrivial.add(rec["inputs"][pos])
@@ -113,7 +127,9 @@ def run(ctx):
             tot = sum(mcs.natoms(s) for s in a["mcs_results"])
             if not any(j["mcs_results"] == a["mcs_results"] for j in myjobs.values()):
                 ctx.fail("attached-data-not-own-job-result", case, {"attached": a["mcs_results"]})
-            if any(sum(mcs.natoms(s) for s in j["mcs_results"]) > tot for j in myjobs.values()):
+            if not any(j["mcs_results"] == a["mcs_results"] and (j["issue"] or "") == "" for j in myjobs.values()):
+                ctx.fail("attached-data-from-a-job-that-reported-an-issue", case, {"attached": a["mcs_results"], "jobs": myjobs})
+            if any(sum(mcs.natoms(s) for s in j["mcs_results"]) > tot for j in myjobs.values() if (j["issue"] or "") == ""):
                 ctx.fail("retained-condition-not-largest", case, {"retained_total": tot, "totals": {c: sum(mcs.natoms(s) for s in j["mcs_results"]) for c, j in myjobs.items()}})
             if (a["issue"] or "") == "":
                 rxn = a["reaction"]
@@ -153,4 +169,8 @@ def copy_conds(conds):
 
 def replay(ctx, rep):
     print(json.dumps(rep, indent=1)[:3000])
+    case = rep.get("failing_input", {})
+    if isinstance(case, dict) and "inputs" in case and "table" not in case:
+        rec = mcs.run_with_plan(case["inputs"], case.get("plan"), 0, case.get("workers", 1))
+        print(json.dumps(rec["after_find"], indent=1)[:3000])
     return 0
